@@ -1206,7 +1206,7 @@ def view_defgrad(vk, cfg):
     view_cell_data(vk, cfg)
 
 
-@contract("C19", "view_cell_data", configs=[dict(view="ViewField")] + [dict(view="ViewSolid", stress_type=t) for t in ("Kirchhoff", None)] + [dict(view="ViewSolid", stress_type="Cauchy", tables="fixed")])
+@contract("C19", "view_cell_data", configs=[dict(view="ViewField")] + [dict(view="ViewSolid", stress_type=t) for t in ("Kirchhoff", None)] + [dict(view="ViewSolid", stress_type="Cauchy", tables="fixed", cells=1), dict(view="ViewSolid", stress_type="Cauchy", tables="fixed", cells=2, tier="thorough")])
 def view_cell_data(vk, cfg):
     """ViewField / ViewSolid (project=None): every default cell-data item is, per cell, the mean over the
     quadrature points of the named quantity: Deformation Gradient (9 components, row-major), Logarithmic Strain
@@ -1217,8 +1217,8 @@ def view_cell_data(vk, cfg):
 
     vk.real(ViewField.__init__)
     vk.real(ViewSolid.__init__)
-    cells = np.array([[0, 1, 2, 3], [1, 2, 3, 4]])
-    nq, nc = 2, 2
+    cells = np.array([[0, 1, 2, 3], [1, 2, 3, 4]])[: cfg.get("cells", 2)]
+    nq, nc = 2, len(cells)
     region = OpaqueTables(vk, cells, 3, nq, cell_type="tetra", concrete=cfg.get("tables") == "fixed")
     if cfg.get("tables") == "fixed":
         vk.note("view_cell_data[stress_type=Cauchy]: universal in the field values and the material response on ONE region with fixed tables in general position (the von Mises root of the Cauchy stress over free tables exceeds the memory budget); Kirchhoff / first Piola-Kirchhoff stress and the strain items: free tables")
